@@ -13,6 +13,11 @@ import (
 func init() { register("C04", checkC04) }
 
 func checkC04(p *Prog, r *Report) {
+	defer func() {
+		if a := ResolveAnchors(p); len(a.err) == 0 {
+			ruleC04GlobalRef(p, a, r, "R-C04-GLOBALREF")
+		}
+	}()
 	a := ResolveAnchors(p)
 	if !anchorCheck(a, r) {
 		return
@@ -347,4 +352,39 @@ func mapRangeOrderSensitive(p *Prog, a *Anchors, rg *ssa.Range) (bool, string) {
 		}
 	}
 	return false, "only per-key map updates / no output, no early exit, no accumulation"
+}
+
+// ruleC04GlobalRef: nothing mutable that lives in a package-level variable is handed to templates. A template can call
+// exported methods of what it finds in its context (Context.Update …), so a package-level map, slice or pointer stored
+// into a context is writable by every template and shared by all executions.
+func ruleC04GlobalRef(p *Prog, a *Anchors, r *Report, rule string) {
+	r.Begin(rule, "no package-level map/slice/pointer is stored into a Context or ExecutionContext map: what templates can reach is per execution (or immutable)", 1)
+	n := 0
+	for _, f := range p.inPkgFuncsSorted(a.ExecReach()) {
+		for _, b := range f.Blocks {
+			for _, in := range b.Instrs {
+				mu, ok := in.(*ssa.MapUpdate)
+				if !ok || !isContextMapType(a, mu.Map.Type()) {
+					continue
+				}
+				v := stripConv(mu.Value)
+				g := globalLoaded(v)
+				if g == nil {
+					continue
+				}
+				n++
+				key := p.FuncName(f) + ":ctx[" + p.VN(mu.Key) + "]=global " + g.Name()
+				T := g.Type().(*types.Pointer).Elem().Underlying()
+				switch T.(type) {
+				case *types.Map, *types.Slice, *types.Pointer, *types.Chan:
+					r.Bad(key, p.InstrPos(in), "the package-level %s %s itself is put into a template context: templates can mutate it through the methods of its type (e.g. {{ pongo2.Update(d) }}) and every execution shares it", typeName(T), g.Name())
+				default:
+					r.OK(key, p.InstrPos(in), "a copy of an immutable package value")
+				}
+			}
+		}
+	}
+	if n == 0 {
+		r.OK("none", "-", "no package-level variable is stored into a context map")
+	}
 }
